@@ -394,6 +394,10 @@ func genSite(r *core.Rand) *script {
 			}
 		}
 	}
+	sortVals(sc.tin)
+	sortVals(sc.tadd)
+	sortVals(sc.tset)
+	sortVals(sc.tup)
 	if r.Chance(1, 2) {
 		var ps []string
 		for i := 1 + r.Intn(3); i > 0; i-- {
